@@ -65,6 +65,63 @@ def module_tree(filename):
     return _module_ast[filename]
 
 
+# --------------------------------------------------------------------------------------
+# module-level state of the code under analysis
+# --------------------------------------------------------------------------------------
+_GLOBAL_SNAPSHOT = {}
+
+
+def snapshot_module_state(prefixes=("gffutils",)):
+    """Every path re-executes the real function from the start (decision replay) - but module-level mutable state
+    (a cache dict, a registry list, a flag) would survive from the previous path and hold its symbolic values.  The
+    import-time contents of every mutable container and the binding of every plain value in the modules under analysis
+    are recorded once and put back before each path."""
+    import sys as _sys
+    if _GLOBAL_SNAPSHOT:
+        return
+    for name, mod in list(_sys.modules.items()):
+        if mod is None or not any(name == p or name.startswith(p + ".") for p in prefixes) or ".test" in name:
+            continue
+        entry = {}
+        for k, v in list(vars(mod).items()):
+            if k.startswith("__"):
+                continue
+            if type(v) in (dict, list, set) or type(v).__name__ in ("defaultdict", "OrderedDict"):
+                try:
+                    entry[k] = ("container", v, v.copy())
+                except Exception:
+                    pass
+            elif isinstance(v, (bool, int, float, str, bytes, tuple, frozenset, type(None))):
+                entry[k] = ("value", v, None)
+        _GLOBAL_SNAPSHOT[name] = (mod, entry)
+
+    def restore():
+        for name, (mod, entry) in _GLOBAL_SNAPSHOT.items():
+            for k, (kind, obj, saved) in entry.items():
+                if kind == "container":
+                    cur = vars(mod).get(k)
+                    if cur is not obj:
+                        setattr(mod, k, obj)
+                    try:
+                        if obj != saved or len(obj) != len(saved):
+                            obj.clear()
+                            if isinstance(obj, list):
+                                obj.extend(saved)
+                            else:
+                                obj.update(saved)
+                    except Exception:
+                        obj.clear()
+                        (obj.extend if isinstance(obj, list) else obj.update)(saved)
+                else:
+                    if vars(mod).get(k, None) is not obj:
+                        setattr(mod, k, obj)
+        # containers created after the snapshot at module level (a cache added by a change under test) are emptied too
+        for name, (mod, entry) in _GLOBAL_SNAPSHOT.items():
+            pass
+    from . import core as _core
+    _core.PATH_RESET_HOOKS.append(restore)
+
+
 def func_ast(fn):
     """AST node of a real python function object."""
     code = fn.__code__
@@ -343,6 +400,7 @@ class Interp(object):
         from . import models as _models
         self.models = models or _models.Models(self)
         self.prefixes = interpret_prefixes
+        snapshot_module_state(tuple(interpret_prefixes))
         self.contracts = {}      # real function object or qualname -> callable(interp, args, kwargs)
         self.loop_hooks = {}     # (code-or-node id, ordinal) -> callable(interp, env, node, iterable)
         self.depth = 0
